@@ -275,19 +275,23 @@ def gen_data(r, dim, stripes, M, res=64):
     return data
 
 
-def gen_case(ctx, thorough):
+def gen_case(ctx, thorough, force=None):
+    """force="uniform-big-classes": a uniform component grid with >= 200 points WITH class labels (large-grid branch of
+    `calculate_B`), scheduled deterministically so that every run contains several of them"""
     r = ctx.rng
     kind = r.choice(["uniform", "uniform", "dimwise", "dimwise", "dimwise"])
-    if r.random() < 0.06:
+    if force is None and r.random() < 0.06:
         return gen_boundary_case(ctx)
     big = r.random() < (0.12 if not thorough else 0.2)
     dim = r.choice([1, 2, 2, 3])
     lam = r.choice(LAMS)
     lumped = r.random() < 0.3
     with_classes = r.random() < 0.4
+    if force == "uniform-big-classes":
+        kind, big, with_classes, lumped = "uniform", True, True, False
     if kind == "uniform":
         if big:
-            lv = r.choice([[8], [4, 4], [4, 4], [2, 3, 4], [5, 3], [3, 5], [2, 2, 4]])
+            lv = r.choice([[8], [4, 4], [4, 4], [2, 3, 4], [5, 3], [3, 5], [3, 3, 3]] + ([] if force else [[2, 2, 4]]))
             dim = len(lv)
         else:
             while True:
@@ -306,7 +310,7 @@ def gen_case(ctx, thorough):
         else:
             cap = {1: 14, 2: 8, 3: 5}[dim]
             stripes = [gen_stripe(r, cap, 5) for _ in range(dim)]
-    M = r.choice([1, 2, 3, 4, 5, 8, 8, 13, 16, 16, 32])
+    M = r.choice([1, 2, 3, 4, 5, 8, 8, 13, 16, 16, 32]) if force is None else r.choice([8, 13, 16, 32])
     data = gen_data(r, dim, stripes, M, res=r.choice([16, 64, 128]))
     classes = [r.choice([-1, 1]) for _ in range(M)] if with_classes else None
     numeric = (kind == "dimwise" and not big and r.random() < (0.15 if not thorough else 0.2)
@@ -866,8 +870,10 @@ def run(ctx):
             case = combi_case(ctx, drv, thorough)
             ok = run_combi(ctx, drv, case)
         else:
-            case = gen_case(ctx, thorough)
+            case = gen_case(ctx, thorough, force="uniform-big-classes" if k % 20 == 3 else None)
             ok = run_case(ctx, drv, case)
+            if case["kind"] == "uniform" and case["big"] and case["classes"] is not None:
+                ctx.count("uniform_ge_200_with_classes")
             ctx.count("kind_%s" % case["kind"])
             ctx.count("dim_%d" % case["dim"])
             ctx.count("lumped" if case["lumped"] else "not_lumped")
